@@ -315,7 +315,17 @@ def run(ctx):
             live = live_now()
             slots_clear = conn.networking_thread is None and conn.new_networking_thread is None
             bad = None
-            if kind == 'C':
+            # "the last exception is recorded on the connection" -- also when a handler has started a new connection
+            rec = conn.exception
+            if kind in 'AC' and rec is not boom:
+                bad = 'the exception recorded on the connection is %r, the last (and only) exception was %r' % (rec, boom)
+            elif kind == 'B' and not (type(rec) is ErrC and rec.args == ('from h1',)):
+                bad = "the exception recorded on the connection is %r, the last exception was ErrC('from h1') raised by the first handler" % (rec,)
+            elif kind in 'ABC' and (conn.exc_info is None or conn.exc_info[1] is not rec):
+                bad = 'exc_info recorded on the connection (%r) does not belong to the recorded exception %r' % (conn.exc_info and conn.exc_info[1], rec)
+            if bad:
+                pass
+            elif kind == 'C':
                 if not (conn.connected and len(live) == 1 and len(net.sockets) == 2):
                     bad = 'the connection started by the handler is not up afterwards (connected=%s, open sockets=%d of %d)' % (
                         conn.connected, len(live), len(net.sockets))
@@ -342,6 +352,36 @@ def run(ctx):
                     'A': 'handler reconnects, final handler disconnects', 'B': 'handler reconnects and raises, later handler disconnects',
                     'C': 'handler reconnects', 'D': 'listener disconnects gracefully, flush fails'}[kind], bad),
                     {'kind': kind, 'variant': variant, 'log': log[:8]}, key={'kind': 'side-effects', 'scenario': kind, 'variant': variant})
+    # ---- "afterwards the same connection object can connect again", for every interleaving of another thread's connect()
+    # with the last steps of the faulting networking thread (scheduler world of corr/c16.py: every access to the two
+    # thread slots and every lock operation is a preemption point).  The server drops the socket during login (EOFError
+    # in the networking thread); a second user thread keeps trying to connect.  A racing connect() may be refused with
+    # InvalidState while the old thread is still active, nothing else may be raised, and once everything is at rest one
+    # more connect() must succeed.
+    from corr import c16 as c16w
+    for trial in range(ctx.scale(60, 900)):
+        servers = ['f'] * rng.randint(1, 3) + ['a'] * 6
+        progs = [['c'], ['c'] * rng.randint(1, 3)] if trial % 3 else [['c', 'c'], ['c', 'c']]
+        r = c16w.run_world(C, servers, 0, rng.choice([0, 0, 1]), progs, 'random', rng)
+        ctx.case(('fault-vs-connect', tuple(servers), tuple(map(tuple, progs)), tuple(r['ran'])),
+                 sample={'kind': 'fault-vs-connect', 'programs': progs, 'outcomes': r['outs'], 'steps': len(r['ran'])})
+        ctx.count('fault-vs-connect')
+        bad = None
+        for i, (ops, outs) in enumerate(zip(progs, r['outs'])):
+            for op, o in zip(ops, outs):
+                if o.startswith('raised'):
+                    bad = bad or 'connect() by user thread %d -> %s' % (i + 1, o)
+        if not bad and (r['stuck'] or not r['users_done']):
+            bad = 'the threads do not come to rest: %s pending=%r' % (r['stuck'], r['pending'])
+        if not bad and r['errors']:
+            bad = 'a thread raised: %r' % (r['errors'][:2],)
+        if not bad and r.get('probe') not in (None, 'ok'):
+            bad = 'every networking thread has ended and no call is in progress, yet one more connect() -> %s (slots at rest: ' \
+                  'networking_thread set=%s, new_networking_thread set=%s)' % (r['probe'], r['nt'], r['newnt'])
+        if bad:
+            ctx.violation('the server drops the login (EOFError ends the networking thread) while another thread calls connect(): ' + bad,
+                          {'servers': servers, 'programs': progs, 'schedule': r['ran'][:200]},
+                          key={'kind': 'fault-vs-connect', 'servers': servers, 'programs': progs, 'schedule': r['ran'][:200]})
     for line, mo, g in zip(lines, ctx.driver.ask(lines), impl):
         if mo != g:
             ctx.disagree('_handle_exception', line[-200:], mo, g)
